@@ -25,7 +25,8 @@ KNOWN_MS = PID + '/definition/MS/shipped-expression-sqrt(gamma-u+0.5)-missing-fa
 def make_closure(which, alias, flag):
     P = target()
     cls = getattr(P.closure, CLASSES[which][1 if alias else 0])
-    return cls(apply_hard_core=flag)
+    # "no hard-core flag" is written the way users write it: by leaving the argument out (the documented default is False)
+    return cls(apply_hard_core=True) if flag else cls()
 
 
 def grid(spec):
